@@ -131,7 +131,8 @@ def applyTT (tt : TT) (t : Text) : Text :=
 /-- `text.replace('\u00AD', '')` -/
 def dropSoftHyphens (t : Text) : Text := t.filter (fun c => c != 173)
 
-/-- `is_whitespace` on the text of a `TextBox`: no `\S`. -/
+/-- `is_whitespace` on the text of a `TextBox`: no character outside the class of its regular
+expression (`Gen.reSpaceCp`: the graph of the real function; `Gen.isWhitespaceRe` is the pattern). -/
 def allReSpace (t : Text) : Bool := t.all Gen.reSpaceCp
 
 /-- `not text.strip(' ')` -/
